@@ -194,7 +194,7 @@ def bounded(tier, seed):
     res = native("accounting.py", {"seed": seed, "n": n}, timeout=3000)
     if not res.get("ok"):
         raise RuntimeError(f"native driver failed: {res}")
-    return [{"name": "solve_with_trackers_step_accounting", "bound": f"{n} random (dt, N, t_start, tracker intervals) instances, dt in decimal and binary fractions, both backends; complex-valued equation with real and complex initial states (the run works on a copy)",
+    return [{"name": "solve_with_trackers_step_accounting", "bound": f"{n} random (dt, N, t_start, tracker intervals) instances, dt in decimal and binary fractions, both backends; complex-valued equation with real and complex initial states (the run works on a copy); two steppers of different dt made by one solver object (5 solver kinds, both backends)",
              "cases": res["cases"], "failures": res["failures"]}]
 
 
